@@ -164,7 +164,8 @@ def prog_nested(rng, **kw):
     k1cols = cols[: max(1, len(cols) // 2)]
     k2cols = cols[len(cols) // 2 :] if rng.random() < 0.6 else cols[: max(1, len(cols) - 1)]  # maybe shared tickers
     kids = [
-        {"name": "k1", "algos": rebalance_stack(rng, k1cols, prog, cash=False, kinds=("lattice", "long"), scheduler=rng.choice(CAL_SCHEDULERS)), "children": list(k1cols)},
+        # (a sub-strategy may run a long/short book)
+        {"name": "k1", "algos": rebalance_stack(rng, k1cols, prog, cash=False, kinds=("lattice", "long", "ls") if len(k1cols) > 1 else ("lattice", "long"), scheduler=rng.choice(CAL_SCHEDULERS)), "children": list(k1cols)},
         {"name": "k2", "algos": rebalance_stack(rng, k2cols, prog, cash=False, kinds=("lattice", "long"), scheduler=rng.choice(CAL_SCHEDULERS)), "children": list(k2cols)},
     ]
     top = ["k1", "k2"]
